@@ -1435,9 +1435,59 @@ class Analyzer:
         # after the loop: invariants with k := k_exit in [lo, hi]
         after = self._head_state(st, carried, arrays, inv, k, lo, hi,
                                  at_entry=False, exit_state=True)
-        res = [after] + brk
         del ends, cont
-        return res
+        return self._bind_after(st, after, s, lo, hi, info) + brk
+
+    def _read_after(self, s: ast.For) -> set[str]:
+        """Loop-target names read outside every loop that binds them."""
+        memo = self.__dict__.setdefault("_read_after_memo", {})
+        key = id(s)
+        if key in memo:
+            return memo[key]
+        tg = {t.id for t in ast.walk(s.target) if isinstance(t, ast.Name)}
+        covered: set[int] = set()
+        for n in ast.walk(self.cur.node):
+            if isinstance(n, ast.For):
+                tn = {t.id for t in ast.walk(n.target)
+                      if isinstance(t, ast.Name)}
+                if tn & tg:
+                    for b in n.body:
+                        for m in ast.walk(b):
+                            if isinstance(m, ast.Name) and m.id in tn:
+                                covered.add(id(m))
+        out = {n.id for n in ast.walk(self.cur.node)
+               if isinstance(n, ast.Name) and isinstance(n.ctx, ast.Load)
+               and n.id in tg and id(n) not in covered}
+        memo[key] = out
+        return out
+
+    def _bind_after(self, st: State, after: State, s: ast.For, lo: Any,
+                    hi: Any, info: dict[str, Any]) -> list[State]:
+        """The loop target keeps its last value after normal exhaustion."""
+        if lo is None or hi is None:
+            return [after]
+        live = self._read_after(s)
+        if not live:
+            return [after]
+        ks = info["ksym"]
+        out: list[State] = []
+        some = after.copy()
+        some.add(hi - lo - 1)
+        if consistent(some.facts):
+            for nm, v in info["binds"].items():
+                if nm in live:
+                    some.vals[nm] = v.subst({ks: hi - 1}) if isinstance(
+                        v, Lin) else UNK
+            out.append(some)
+        if not entails(after.facts, hi - lo - 1):
+            none = after.copy()
+            none.add(lo - hi)
+            if consistent(none.facts):
+                for nm in info["binds"]:
+                    if nm in live:
+                        none.vals[nm] = st.vals.get(nm, UNK)
+                out.append(none)
+        return out or [after]
 
     def _havoc(self, st: State, carried: list[str], arrays: list[Arr],
                body: list[ast.stmt], test: ast.expr | None = None) \
